@@ -5,7 +5,7 @@ META = {
     "outside": ["message build / copy / edit and config-file parsing under OOM (heap DBusString pipelines)", "match-rule parsing under OOM", "Hello / AddMatch / routed messages under OOM "
                 "(only the dispatch skeleton's 'NoMemory => cancel, never execute' in C03/C05)", "pairs of faults", "LeakSanitizer-style whole-process leak checks"],
 }
-ENV = ["assert_stubs.c", "mem.c"]
+ENV = ["assert_stubs.c", "mem.c", "memfuncs.c"]
 REAL = ["dbus/dbus-list.c", "dbus/dbus-string.c", "dbus/dbus-marshal-validate.c"]
 def jobs(tier):
     J = []
@@ -18,7 +18,7 @@ def jobs(tier):
                 if op == 0:   # RequestName under a fault: cost grows steeply with queue length and fault index (measured: Q1.a4 121 s, Q2.a5 331 s, Q2.a6 > 900 s)
                     tiers = ("quick", "thorough") if ((qn == 0 and koom <= 7 and ksig <= 2) or (qn == 1 and koom in (1, 2, 3, 4))) else ("thorough",)
                 J.append(Job(name=f"names.{nm}.Q{qn}.{tag}", group="C14.names", harness="harness/C14_services.c", defines={"QN": qn, "OP": op, "KOOM": koom, "KSIG": ksig},
-                             real=REAL, env=ENV, checks="assert", unwind=8, unwindset=["vf_err_is.0:66"], timeout=900 if "quick" in tiers else 5400, tiers=tiers,
+                             real=REAL, env=ENV, checks="assert", unwind=8, unwindset=["vf_err_is.0:66", "memcpy.0:10", "memmove.0:10", "memmove.1:10"], timeout=900 if "quick" in tiers else 5400, tiers=tiers,
                              encodes=["bus_registry_acquire_service", "bus_registry_release_service", "bus_service_remove_owner", "bus_service_add_owner", "bus_service_swap_owner",
                                       "cancel_ownership", "restore_ownership", "free_ownership_cancel_data", "free_ownership_restore_data", "bus_registry_ensure"],
                              stubs=["allocator fails at call k (mempool, list pool via dbus-list, dbus_new, hash insert/preallocate, hook registration, owned-service link)",
